@@ -192,7 +192,7 @@ def check_memory(tdf, path, model, case, seed, when):
                 if blk.type.value != t:
                     fails.append(_f("C11", "C11.lookup", f"{when}: get_block({t}) returned a block of type {blk.type}", case, seed))
                 if real_write(name, blk) != m["payload"]:
-                    fails.append(_f("C10", "C10.read", f"{when}: reading block type {t} through the open object does not give the bytes stored on disk", case, seed))
+                    fails.append(_f("C04,C10", "C10.read", f"{when}: reading block type {t} through the open object does not give the bytes stored on disk", case, seed))
                 if name in GETTER:
                     g = getattr(tdf, GETTER[name])
                     if g.type.value != t or real_write(name, g) != m["payload"]:
